@@ -45,6 +45,8 @@ def run(chk):
     from lib import sentinel
     sentinel.run_units(chk, ("a64",))
 
+    from lib import movn32
+    movn32.run(chk)
     return chk.finish(
         level="other",
         explanation=("Static rules over a64::Assembler::_emit and the AArch64 tables of /repo's current source: "
